@@ -910,7 +910,7 @@ class Mesh:
         if has_boundaries and m.boundaries is None:
             logger.warning("Named boundaries invalidated by a call to "
                            "Mesh.refined()")
-        if has_subdomains and self.subdomains is None:
+        if has_subdomains and m.subdomains is None:
             logger.warning("Named subdomains invalidated by a call to "
                            "Mesh.refined()")
         return m
